@@ -54,6 +54,10 @@ pub struct OpenSpec {
     pub fund: FundSpec,
     /// offered HTLCs of commitment 1 (outbound channels only): index into AMTS
     pub htlcs: Vec<u8>,
+    /// the offered HTLCs all carry the same payment hash and expiry (parts of one multi-part
+    /// payment over this channel): their output scripts are identical
+    #[serde(default)]
+    pub twins: bool,
 }
 
 #[derive(Clone, Debug, Serialize, Deserialize, PartialEq, Eq, Hash)]
@@ -661,7 +665,10 @@ impl<'a> Run<'a> {
         let perm = spec.dbid % 2 == 0;
         let f = crate::chainpool::open_funded_perm(&mut self.w, &spec, &o.fund, perm);
         let mut contents = vec![f.content0.clone()];
-        let offered: Vec<Htlc> = if outbound { o.htlcs.iter().enumerate().map(|(j, a)| Htlc { h: (j % 2) as u8, sat: AMTS[*a as usize % 3], cltv: 1_000 + j as u32 }).collect() } else { vec![] };
+        let offered: Vec<Htlc> = if outbound { o.htlcs.iter().enumerate().map(|(j, a)| if o.twins { Htlc { h: 0, sat: AMTS[*a as usize % 3], cltv: 1_000 } } else { Htlc { h: (j % 2) as u8, sat: AMTS[*a as usize % 3], cltv: 1_000 + j as u32 } }).collect() } else { vec![] };
+        if o.twins && offered.len() >= 2 {
+            self.st.class("open:htlcs-with-identical-scripts");
+        }
         if !offered.is_empty() || !outbound {
             let other = if outbound { 0 } else { 600_000 };
             let c = mk_content(o.anchors, outbound, spec.value_sat, 1000, other, offered, vec![]);
@@ -998,7 +1005,7 @@ impl Prop for C15 {
     }
 
     fn fixed_cases(&self) -> Vec<Case> {
-        let spec = |dbid: u8, htlcs: Vec<u8>| OpenSpec { dbid, peer: 1, anchors: false, outbound: true, fund: FundSpec { two_inputs: true, funding_first: true }, htlcs };
+        let spec = |dbid: u8, htlcs: Vec<u8>| OpenSpec { dbid, peer: 1, anchors: false, outbound: true, fund: FundSpec { two_inputs: true, funding_first: true }, htlcs, twins: false };
         let blk = |txs: Vec<TxSel>| Op::Block { txs };
         let forget = |dbid: u8| Op::ForgetId { dbid, peer: 1 };
         let hs = TxSel::HtlcSpend { c: 0, which: vec![0], fee: FeePos::None, merge: false, salt: 0 };
@@ -1123,6 +1130,9 @@ enum CloseKind {
     CpMainOnly,
     HolderUnswept,
     CpUnswept,
+    /// main output and all HTLC outputs but one (the first or the last in output order) swept
+    HolderAllButOne(bool),
+    CpAllButOne(bool),
 }
 
 #[derive(Clone, Debug)]
@@ -1143,8 +1153,8 @@ enum Reorg {
 }
 
 fn open_spec() -> impl Strategy<Value = OpenSpec> {
-    (1u8..=5, 1u8..=2, prop::bool::weighted(0.3), prop::bool::weighted(0.75), any::<bool>(), any::<bool>(), prop_oneof![3 => Just(vec![]), 2 => proptest::collection::vec(0u8..3, 1..3)])
-        .prop_map(|(dbid, peer, anchors, outbound, two_inputs, funding_first, htlcs)| OpenSpec { dbid, peer, anchors, outbound, fund: FundSpec { two_inputs, funding_first }, htlcs })
+    (1u8..=5, 1u8..=2, prop::bool::weighted(0.3), prop::bool::weighted(0.75), any::<bool>(), any::<bool>(), prop_oneof![3 => Just(vec![]), 2 => proptest::collection::vec(0u8..3, 1..3), 1 => proptest::collection::vec(0u8..3, 2..4)], prop::bool::weighted(0.35))
+        .prop_map(|(dbid, peer, anchors, outbound, two_inputs, funding_first, htlcs, twins)| OpenSpec { dbid, peer, anchors, outbound, fund: FundSpec { two_inputs, funding_first }, htlcs, twins })
 }
 
 fn tx_sel() -> impl Strategy<Value = TxSel> {
@@ -1193,6 +1203,8 @@ fn life_cycle() -> impl Strategy<Value = Vec<Op>> {
         2 => Just(CloseKind::CpMainOnly),
         1 => Just(CloseKind::HolderUnswept),
         1 => Just(CloseKind::CpUnswept),
+        2 => any::<bool>().prop_map(CloseKind::HolderAllButOne),
+        2 => any::<bool>().prop_map(CloseKind::CpAllButOne),
     ];
     let forget_at = prop_oneof![
         2 => Just(ForgetAt::Never),
@@ -1220,7 +1232,7 @@ fn life_cycle() -> impl Strategy<Value = Vec<Op>> {
             let mut ops: Vec<Op> = vec![];
             if second {
                 // an unrelated, higher id that stays open
-                ops.push(Op::Open(OpenSpec { dbid: 5, peer: 1, anchors: false, outbound: true, fund: FundSpec { two_inputs: false, funding_first: true }, htlcs: vec![] }));
+                ops.push(Op::Open(OpenSpec { dbid: 5, peer: 1, anchors: false, outbound: true, fund: FundSpec { two_inputs: false, funding_first: true }, htlcs: vec![], twins: false }));
             }
             ops.push(Op::Open(spec.clone()));
             // the life-cycle channel is ready channel number `c`
@@ -1255,6 +1267,17 @@ fn life_cycle() -> impl Strategy<Value = Vec<Op>> {
                         CloseKind::CpSwept => (Some(TxSel::CpCommit { c }), vec![vec![TxSel::SweepOurs { c, salt: 0 }, all_htlcs.clone()]]),
                         CloseKind::HolderMainOnly => (Some(TxSel::HolderCommit { c }), vec![vec![TxSel::SweepOurs { c, salt: 0 }]]),
                         CloseKind::CpMainOnly => (Some(TxSel::CpCommit { c }), vec![vec![TxSel::SweepOurs { c, salt: 0 }]]),
+                        CloseKind::HolderAllButOne(skip_first) | CloseKind::CpAllButOne(skip_first) => {
+                            let holder = matches!(kind, CloseKind::HolderAllButOne(_));
+                            let commit = if holder { TxSel::HolderCommit { c } } else { TxSel::CpCommit { c } };
+                            let m = n_htlc.saturating_sub(1);
+                            let mut first = vec![TxSel::SweepOurs { c, salt: 0 }];
+                            if m > 0 {
+                                first.push(TxSel::HtlcSpend { c, which: vec![if skip_first { u16::MAX } else { 0 }; m], fee: FeePos::None, merge: false, salt: 0 });
+                            }
+                            let snd: Vec<TxSel> = if holder { (0..m).map(|j| TxSel::SecondLevel { c, k: 0, salt: j as u8 }).collect() } else { vec![] };
+                            (Some(commit), vec![first, snd])
+                        }
                         CloseKind::HolderUnswept => (Some(TxSel::HolderCommit { c }), vec![]),
                         CloseKind::CpUnswept => (Some(TxSel::CpCommit { c }), vec![]),
                     };
@@ -1295,7 +1318,7 @@ fn life_cycle() -> impl Strategy<Value = Vec<Op>> {
             }
             ops.push(Op::Bury { k, rel });
             // a unilateral close whose outputs are not all swept grows old (beyond 2016 blocks)
-            if aged && matches!(kind, CloseKind::HolderMainOnly | CloseKind::CpMainOnly | CloseKind::HolderUnswept | CloseKind::CpUnswept) {
+            if aged && matches!(kind, CloseKind::HolderMainOnly | CloseKind::CpMainOnly | CloseKind::HolderUnswept | CloseKind::CpUnswept | CloseKind::HolderAllButOne(_) | CloseKind::CpAllButOne(_)) {
                 ops.push(Op::EmptyMany { n: (2016 - 100 + 4 + rel as i32) as u16 });
             }
             // a reorg of the burying blocks before the signer is asked to prune: a few blocks, or
